@@ -15,7 +15,11 @@ import (
 )
 
 func readRules(input io.Reader) ([]rule, error) {
-	rules := defaultExclusions
+	// Start from a copy of the default rules: the loop below updates the
+	// negationsAfter flag of earlier rules, which must not leak into the
+	// shared defaults (other rule sets and concurrent callers use them).
+	rules := make([]rule, len(defaultExclusions))
+	copy(rules, defaultExclusions)
 	scanner := bufio.NewScanner(input)
 	scanner.Split(bufio.ScanLines)
 	currentRuleIndex := len(defaultExclusions) - 1
